@@ -1487,8 +1487,11 @@ def jobs(tier):
   if deep:
     for sps in (10, 31, 100, 250):
       for bins in (0, 1, 4, 32, 127):
+        # a shift limit of one step turns every advance into a run of
+        # events: those jobs take 30+ min each and are optional
         add('h_performance', kind='absolute', N=2, S=6, sps=sps, bins=bins,
-            ms=[1, 3, 100, 1000][bins % 4], start=0, budget=1800)
+            ms=[1, 3, 100, 1000][bins % 4], start=0, budget=1800,
+            required=[1, 3, 100, 1000][bins % 4] != 1)
       add('h_noteperf', N=2, S=6, sps=sps, bins=127, budget=900)
     add('h_performance', kind='absolute', N=3, S=6, sps=100, bins=4, ms=3,
         start=0, budget=3000, required=False)
